@@ -10,10 +10,7 @@ import sexp
 from props import c02
 
 warnings.simplefilter('ignore')
-try:
-    sys.set_int_max_str_digits(0)        # the harness prints big ints itself; the implementation's own limit is re-imposed below
-except AttributeError:
-    pass
+import pyast as _pyast      # big ints are written with the conversion limit lifted locally (pyast.unlimited)
 
 META = {
     'rule': 'inputs: every operator x operand-kind pair (13 x 7 x 7) on a literal pool, random nested literal expressions (depth <= 5) '
@@ -60,7 +57,8 @@ def key_of(v):
     if v is False:
         return 'b:0'
     if isinstance(v, int):
-        return 'i:%d' % v
+        with _pyast.unlimited():
+            return 'i:%d' % v
     if isinstance(v, float):
         return 'f:' + repr(v)
     if isinstance(v, complex):
@@ -116,18 +114,12 @@ def fold_impl(src):
     import python_minifier
     opts = dict(c02.ALL_OFF)
     opts['constant_folding'] = True
-    old = sys.get_int_max_str_digits() if hasattr(sys, 'get_int_max_str_digits') else None
-    if old is not None:
-        sys.set_int_max_str_digits(4300)      # the interpreter default the implementation runs under
     try:
         return python_minifier.minify(src, **opts)
     except RecursionError:
         return None
     except Exception as e:
         return 'EXC:' + e.__class__.__name__
-    finally:
-        if old is not None:
-            sys.set_int_max_str_digits(old)
 
 
 def same_value(a, b):
